@@ -590,7 +590,7 @@ def c03_cases(S, M, ST, O, which):
     model = Model(False)
     flows = []
     for label, marg, view in metrics(M, n):
-        if label == "Cholesky-factored":
+        if label in ("Cholesky-factored", "dense 2-D array"):
             flows.append((f"Euclidean[{label}]", lambda marg=marg: S.EuclideanMetricSystem(model.neg_log_dens, metric=marg, grad_neg_log_dens=model.grad_neg_log_dens)))
             continue
         flows.append((f"Euclidean[{label}]", lambda marg=marg: S.EuclideanMetricSystem(model.neg_log_dens, metric=marg, grad_neg_log_dens=model.grad_neg_log_dens)))
